@@ -1,3 +1,5 @@
+import os
+
 from trashcli.fstab.volume_of import VolumeOf
 from trashcli.put.fs.parent_realpath import ParentRealpathFs
 
@@ -9,5 +11,8 @@ class VolumeOfParent:
         self.fs = fs
 
     def volume_of_parent(self, path):
-        parent_realpath = ParentRealpathFs(self.fs).parent_realpath(path)
+        # 'link/' names the link itself, as for the move: drop trailing slashes
+        # before taking the parent, or the parent of 'link/' is the link
+        parent_realpath = ParentRealpathFs(self.fs).parent_realpath(
+            os.path.normpath(path))
         return self.fs.volume_of(parent_realpath)
